@@ -109,6 +109,9 @@ def spec_env():
                 out.append((a, v0, w[:p1] + w[p1 + 1:p2] + c + w[p2:], w))
         return out
 
+    env["is_subst"] = lambda s2, s, p, c: len(c) == 1 and len(s2) == len(s) and 0 <= p < len(s) and s2 == s[:p] + c + s[p + 1:]
+    env["is_ins"] = lambda s2, s, p, c: len(c) == 1 and 0 <= p <= len(s) and s2 == s[:p] + c + s[p:]
+    env["is_del"] = lambda s2, s, p: 0 <= p < len(s) and s2 == s[:p] + s[p + 1:]
     env["corrupted_cases"] = corrupted_cases
     env["set_vt"] = lambda s, n: S.vt_spec(s, n)
     env["sorted_unique"] = lambda lst: all(a < b for a, b in zip(lst, lst[1:]))
